@@ -167,6 +167,14 @@ fn run(ctx: &mut Ctx) {
         ),
         // extern pragma without an identifier: key None
         ("PRAGMA EXTERN \"OCTET\"\nPRAGMA EXTERN foo \"INTEGER\"", "PRAGMA EXTERN \"REAL\""),
+        // nameless / integer-first EXTERN on either side, also against the empty program
+        ("", "PRAGMA EXTERN \"OCTET\""),
+        ("", "PRAGMA EXTERN 5 \"INTEGER\"\nPRAGMA EXTERN foo \"INTEGER\""),
+        ("PRAGMA EXTERN foo \"INTEGER\"", "PRAGMA EXTERN 7 \"REAL\""),
+        ("DEFCAL X 0:\n\tNOP", "PRAGMA EXTERN \"OCTET\""),
+        // calibrations-only programs (Program::is_empty() is true for them)
+        ("DEFCAL X 0:\n\tNOP\nDEFCAL MEASURE 0 addr:\n\tNOP", ""),
+        ("DEFCAL X 0:\n\tNOP", "DEFCAL X 0:\n\tDELAY 0 1\nDEFCAL MEASURE 1:\n\tFENCE 1"),
         // used qubits only through calibrations
         ("DEFCAL X 3:\n\tNOP", "DEFCAL X 4:\n\tNOP\nX 5"),
     ];
@@ -196,6 +204,9 @@ fn run(ctx: &mut Ctx) {
         "DEFCIRCUIT BELL a b:\n\tH b",
         "PRAGMA EXTERN foo \"INTEGER\"",
         "PRAGMA EXTERN foo \"REAL\"",
+        "PRAGMA EXTERN \"OCTET\"",
+        "PRAGMA EXTERN \"REAL\"",
+        "PRAGMA EXTERN 5 \"INTEGER\"",
     ]
     .iter()
     .map(|t| qvh::progs::parse_one(t))
